@@ -44,6 +44,7 @@ impl kani::Arbitrary for D64 {
 // --------------------------------------------------------------------------------------------------
 // XH: deterministic, cheap
 // --------------------------------------------------------------------------------------------------
+#[derive(Debug, Clone, Copy, PartialEq, Eq)]
 pub struct XH<B>(PhantomData<B>);
 
 #[inline]
@@ -92,6 +93,7 @@ impl<B: StarkField> ElementHasher for XH<B> {
 // --------------------------------------------------------------------------------------------------
 // NH: every call returns an arbitrary digest
 // --------------------------------------------------------------------------------------------------
+#[derive(Debug, Clone, Copy, PartialEq, Eq)]
 pub struct NH<B>(PhantomData<B>);
 
 impl<B: StarkField> Hasher for NH<B> {
@@ -173,6 +175,7 @@ pub fn ih_lookup(tag: u8, w: [u64; 4]) -> D64 {
     }
 }
 
+#[derive(Debug, Clone, Copy, PartialEq, Eq)]
 pub struct IH<B>(PhantomData<B>);
 
 /// packs up to 32 bytes into 4 words; longer inputs are outside the model (assume(false))
